@@ -330,7 +330,7 @@ func (v *VM) exec() {
 			}
 			if s.value != nil {
 				v.stack[len(v.stack)-1] = s.Append(vs...)
-			} else {
+			} else if len(vs) > 0 { // (appending nothing to a nil slice leaves it nil)
 				vsCopy := make([]Value, len(vs))
 				copy(vsCopy, vs)
 				v.stack[len(v.stack)-1] = NewSlice(s.t.value(), vsCopy)
